@@ -622,6 +622,20 @@ fn gen_case(rng: &mut Rng, ctx: &Ctx, pools: &Pools) -> SchedCase {
             } else {
                 jobs.push(gen_job(rng, ctx, pools, density));
             }
+            // the same source again with other options (a build that emits expanded and
+            // minified CSS from one file): anything memoised without the options in its key shows
+            if rng.chance(0.25) && jobs.len() < 6 {
+                let mut again = jobs.last().unwrap().clone();
+                match rng.below(3) {
+                    0 => again.compressed = !again.compressed,
+                    1 => again.unicode = !again.unicode,
+                    _ => {
+                        again.compressed = !again.compressed;
+                        again.charset = !again.charset;
+                    }
+                }
+                jobs.push(again);
+            }
         }
         let entropy = if rng.chance(0.15) { REF_KEY } else { rng.next_u64() | 1 };
         let heap_shift = if rng.chance(0.5) { 0 } else { rng.range(1, 4096) as usize };
